@@ -51,9 +51,9 @@ def py_of(case):
     if case.get('kind') == 'levels':
         return ("import gfapy\nfor vl in range(4):\n  try: print(vl, repr(str(gfapy.Gfa(%r, version=%r, vlevel=vl))))\n  except gfapy.Error as e: print(vl, type(e).__name__)"
                 % (case['lines'], case['version']))
-    return ("import gfapy\nl=gfapy.Line(%r, version=%r, vlevel=%d)\nfor op in %r:\n  try:\n    if op[0]=='set': l.set(%r, op[1]); print('set ok')\n"
+    return ("import gfapy\nl=gfapy.Line(%r, version=%r, vlevel=%d)\nfor _ in range(%d): l=l.clone()\nfor op in %r:\n  try:\n    if op[0]=='set': l.set(%r, op[1]); print('set ok')\n"
             "    elif op[0]=='write': print(repr(l.field_to_s(%r)))\n    else: l.validate_field(%r); print('valid')\n  except gfapy.Error as e: print(op, type(e).__name__)"
-            % (case['text'], case['version'], case['vlevel'], case['ops'], case['field'], case['field'], case['field']))
+            % (case['text'], case['version'], case['vlevel'], case.get('clones', 0), case['ops'], case['field'], case['field'], case['field']))
 
 
 def assignment_case(rng, version, text, vlevel):
@@ -86,7 +86,7 @@ def assignment_case(rng, version, text, vlevel):
         else:
             ops.append(('validate',))
     return {'kind': 'assign', 'version': version, 'vlevel': vlevel, 'text': text, 'field': name, 'dt': dt, 'init': init, 'ops': ops,
-            'rt': l.record_type, 'pos': pos}
+            'rt': l.record_type, 'pos': pos, 'clones': rng.choice([0, 0, 1, 2])}
 
 
 def valid_for(case, s):
@@ -121,6 +121,8 @@ def run_assignment(case):
     """observed outcomes and the oracle's verdict"""
     g = impl.gfapy()
     l = g.Line(case['text'], version=case['version'], vlevel=case['vlevel'])
+    for _ in range(case.get('clones', 0)):
+        l = l.clone()              # a copy behaves as the line it was made from, level included
     name, dt, vl = case['field'], case['dt'], case['vlevel']
     cur = case['init']
     obs, fails = [], []
